@@ -479,6 +479,9 @@ class Transform(object):
             # treat symmetry_axis=[] as symmetry_axis=None
             self._symmetry_axis = [None]
 
+        if self.method == 'linbasex' and self.direction != 'inverse':
+            raise ValueError('Forward "linbasex" transform not implemented')
+
         if self.method == 'rbasex' and self._origin != 'none':
             if self._transform_options.get('origin') is not None:
                 raise ValueError('Either use the "origin" argument to center '
